@@ -25,13 +25,13 @@ class TemperatureFile(TemperatureArray):
         convertP = conversion_factor(press_units, 'Pa')
 
         if press_col is not None:
-            arr = np.loadtxt(filename, skiprows=skiprows, 
+            arr = np.loadtxt(filename, skiprows=int(skiprows), 
                              usecols=(int(press_col), int(temp_col)),delimiter=delimiter,
                              )
             temperature_arr = arr[:, 1]*convertT
             pressure_arr = arr[:, 0]*convertP
         else:
-            arr = np.loadtxt(filename, skiprows=skiprows,
+            arr = np.loadtxt(filename, skiprows=int(skiprows),
                              usecols=int(temp_col),
                              )
             temperature_arr = arr[:]*convertT
